@@ -174,7 +174,8 @@ func runSched(sc scenario) []trace {
 	for _, h := range sc.Hist {
 		if h.Ev == 1 {
 			exp[h.S]++
-			for rec.n(h.S) < exp[h.S] && s.StepProc(h.S) {
+			// bounded: a proc that waits for a lock held by another proc makes no progress on its own
+			for k := 0; k < 64 && rec.n(h.S) < exp[h.S] && s.StepProc(h.S); k++ {
 			}
 		} else if rec.n(h.S) <= exp[h.S] {
 			s.StepProc(h.S)
